@@ -283,31 +283,42 @@ func (fs *FS) Rename(oldname, newname string) error {
 }
 
 func (fs *FS) rename(oldname, newname string) error {
-	oldFile, err := fs.getFile(oldname)
-	if err != nil {
-		return err
-	}
-	newFile, err := fs.getFile(newname)
-	switch {
-	case err == nil && newFile.Mode().IsDir():
-		// like os.Rename, never replace a directory. includes renaming a directory to itself
-		return hackpadfs.ErrExist
-	case err == nil && oldname == newname:
-		return nil
-	case err == nil && oldFile.Mode().IsDir():
-		return hackpadfs.ErrNotDir
-	case err != nil && !errors.Is(err, hackpadfs.ErrNotExist):
-		return err
-	}
-	if oldname == "." || strings.HasPrefix(newname, oldname+"/") {
-		// can't move the root or move a directory into itself
+	// checks are made in the order the os package reports them
+	if !hackpadfs.ValidPath(oldname) || !hackpadfs.ValidPath(newname) {
 		return hackpadfs.ErrInvalid
 	}
-	newParent, err := fs.getFile(path.Dir(newname))
-	if err != nil {
-		return err
+	oldFile, oldErr := fs.getFile(oldname)
+	newFile, newErr := fs.getFile(newname)
+	if newErr == nil && newFile.Mode().IsDir() {
+		// like os.Rename, never replace a directory. includes renaming a directory to itself
+		if oldErr != nil {
+			return oldErr
+		}
+		return hackpadfs.ErrExist
 	}
-	if !newParent.Mode().IsDir() {
+	if oldname == "." {
+		return hackpadfs.ErrInvalid
+	}
+	for _, name := range []string{oldname, newname} {
+		parent, err := fs.getFile(path.Dir(name))
+		if err != nil {
+			return err
+		}
+		if !parent.Mode().IsDir() {
+			return hackpadfs.ErrNotDir
+		}
+	}
+	switch {
+	case oldErr != nil:
+		return oldErr
+	case strings.HasPrefix(newname, oldname+"/"):
+		// can't move a directory into itself
+		return hackpadfs.ErrInvalid
+	case newErr != nil && !errors.Is(newErr, hackpadfs.ErrNotExist):
+		return newErr
+	case newErr == nil && oldname == newname:
+		return nil
+	case newErr == nil && oldFile.Mode().IsDir():
 		return hackpadfs.ErrNotDir
 	}
 	return fs.renameFile(oldFile, oldname, newname)
